@@ -110,7 +110,10 @@ def judge(ctx, name, K, KG, active, eigvals, eigvecs, k_req, claim_order=True, t
         got = eigvals[:kk]
         ctx.ok(np.all(np.diff(got) >= -1e-7 * np.abs(got[:-1])) if kk > 1 else True, name + '.ascending',
                'multipliers not ascending: %r' % (got[:6],))
-        ctx.close(name + '.values', got, pos[:kk], 1e-6, bucket=name + '.smallest-positive', scale=None)
+        # both the package's solver and the dense reference resolve a multiplier only to eps * cond(K) (1e8 edge penalties of the shells
+        # give cond ~ 1e9..1e10): the agreement demanded is 1e-6 plus twenty times that rounding level
+        vtol = 1e-6 + 20 * 2.2e-16 * np.linalg.cond(Ka)
+        ctx.close(name + '.values', got, pos[:kk], vtol, bucket=name + '.smallest-positive', scale=None)
         ctx.label('order-claimed')
     return info, pos
 
